@@ -20,7 +20,8 @@ LEAN_MODULES = ['ThermoVerif.Props.C11']
 RULE = ('histories (8–45 ops) over 1–3 real streams (single- and multi-phase; Water/Ethanol/Methanol/Glycerol and a '
         'second package with other order + Propanol): reads and writes through imol/imass/ivol, F_*, get/set_flow, '
         'get/set_total_flow in kmol/hr, mol/s, kg/hr, lb/hr, g/min, m3/hr, L/min, gal/min (+ non-flow units), '
-        'interleaved with T, P, phase, phases, link_with (8 flag combinations), unlink, copy_like, _reset_thermo; '
+        'interleaved with T, P, phase, phases, link_with (8 flag combinations), unlink, copy_like, _reset_thermo, '
+        'mix_from, scale, empty and reactions defined on another property package (reset_chemicals with container); '
         'a grid enumerates link flags × class × follow-up and all unit pairs; non-trivial = a cached view was read, '
         'a structural/thermal change happened, and a view was read again; distinct = distinct op sequences')
 ASSUMPTIONS = [
@@ -31,16 +32,17 @@ ASSUMPTIONS = [
     'pint factors and MW are data dumped at run time; the driver checks nonzero factors, MW>0 and '
     'factor(u→u\') = f(u\')/f(u) (hypothesis monitors)',
     'ThermalCondition.in_equilibrium (|ΔT|,|ΔP| < 1e-12) is modelled as equality',
-    'the model is written to the repaired behaviour of fixes_proposed/C11-1..3',
+    'the model is written to the repaired behaviour of fixes_proposed/C11-1..4',
     'arithmetic: model exact (Rat), implementation binary64; compared with rtol 1e-9 / atol 1e-12',
     'not generated: phase-view streams ms[phase], proxies, linking multi-phase streams with different phase sets or '
     'streams of different packages by flow, _expand_phases on a data object shared with another stream, '
-    'reset_chemicals(container=…) (reaction-internal)',
+    'mix_from with fewer than two non-empty inlets or inlets of another package',
 ]
 TRUSTED = ['Lean 4.33 kernel', 'harness/props/c11.py + Driver/C11.lean', 'pint', 'generator reach (see histogram)']
 
 tmo = None
 THERMOS = []
+RXNS = {}
 FLOW_UNITS = ['kmol/hr', 'mol/s', 'kg/hr', 'lb/hr', 'g/min', 'm3/hr', 'L/min', 'gal/min']
 OTHER_UNITS = ['kg', 'm3', 'kJ/hr', 'K', 'kmol', 'hr', 'kg/m3']
 BASE = {'mol': 'kmol/hr', 'mass': 'kg/hr', 'vol': 'm3/hr'}
@@ -61,6 +63,15 @@ def setup():
     c1 = tmo.Chemicals(['Ethanol', 'Water', 'Glycerol', 'Methanol', 'Propanol'], cache=True)
     c2 = tmo.Chemicals(['Methanol', 'Water'], cache=True)
     THERMOS[:] = [tmo.Thermo(c0, cache=False), tmo.Thermo(c1, cache=False), tmo.Thermo(c2, cache=False)]
+    # reactions defined on package 1: applied to a stream of package 0 they go through
+    # reset_chemicals(chemicals) / reset_chemicals(old chemicals, container)
+    tmo.settings.set_thermo(THERMOS[1])
+    kw = dict(reactant='Ethanol', X=0.5, correct_atomic_balance=False, check_atomic_balance=False)
+    RXNS.clear()
+    RXNS['1mol'] = tmo.Reaction('Ethanol -> Methanol', **kw)
+    RXNS['1wt'] = tmo.Reaction('Ethanol -> Methanol', basis='wt', **kw)
+    RXNS['mmol'] = tmo.Reaction('Ethanol,l -> Methanol,g', phases='lg', **kw)
+    RXNS['mwt'] = tmo.Reaction('Ethanol,l -> Methanol,g', phases='lg', basis='wt', **kw)
     tmo.settings.set_thermo(THERMOS[0])
     ureg = tmo.units_of_measure.ureg
     dims = {k: ureg.get_dimensionality(v) for k, v in BASE.items()}
@@ -224,6 +235,9 @@ def run_ops(ops):
             return ph, i, (ph, ID)
         return '-', i, ID
 
+    def sync_line(sid, s):
+        return f'sync {sid} {frac(s.T)} {frac(s.P)} {"-" if is_multi(s) else s.phase} {mat(mol_rows(s))}'
+
     def vtok(s, need=True):
         return mat(fresh_V(s)) if need else '_'
 
@@ -287,13 +301,12 @@ def run_ops(ops):
             emit(f'setphase {sid} {c} {mat(mol_rows(s))}', shape_ans(s))
         elif op == 'setphases':
             sid = S(t[1]); s = w.streams[sid]; ps = ''.join(sorted(set(t[2])))
-            if not is_multi(s) and len(ps) > 1:
-                cur = s.phase
-                if cur not in ps and cur.swapcase() not in ps: return     # would leave a half-converted object
             try:
                 s.phases = tuple(ps)
             except tmo.exceptions.UndefinedPhase:
-                return      # a non-empty phase cannot be re-filed: rejected before anything is rebound
+                # a non-empty phase cannot be re-filed: rejected before anything is rebound
+                emit(f'setphases {sid} {ps} {mat(mol_rows(s))}', 'err UndefinedPhase')
+                return
             mark_change(sid, op)
             emit(f'setphases {sid} {ps} {mat(mol_rows(s))}', shape_ans(s))
         elif op == 'link':
@@ -318,9 +331,6 @@ def run_ops(ops):
             sid, oid = S(t[1]), S(t[2]); s, o = w.streams[sid], w.streams[oid]
             if s is not o:
                 if is_multi(o) and len(o.phases) < 2: return
-                if not is_multi(s) and is_multi(o):
-                    cur = s.phase
-                    if cur not in o.phases and cur.swapcase() not in o.phases: return
                 if is_multi(s) and w.shared_data(s): return
                 if is_multi(s) and not is_multi(o) and o.phase not in s._imol._phase_indexer:
                     return   # MaterialIndexer.copy_like raises UndefinedPhase here (stale local phase indexer)
@@ -328,7 +338,13 @@ def run_ops(ops):
                     have = set(s.chemicals.CASs)
                     for r in mol_rows(o):
                         if any(x and cas not in have for x, cas in zip(r, o.chemicals.CASs)): return
-            s.copy_like(o)
+            try:
+                s.copy_like(o)
+            except tmo.exceptions.UndefinedPhase:
+                if not is_multi(s) and is_multi(o):      # `self.phases = other.phases` rejected, nothing changed
+                    emit(f'copylike {sid} {oid} {mat(mol_rows(s))}', 'err UndefinedPhase')
+                    return
+                raise
             mark_change(sid, 'copylike')
             emit(f'copylike {sid} {oid} {mat(mol_rows(s))}', shape_ans(s))
         elif op == 'thermo':
@@ -341,6 +357,41 @@ def run_ops(ops):
             s._reset_thermo(new)
             mark_change(sid, 'thermo')
             emit(f'thermo {sid} {k} {mat(mol_rows(s))}', shape_ans(s))
+        elif op in ('scale', 'empty', 'react'):
+            sid = S(t[1]); s = w.streams[sid]
+            if op == 'scale': s.scale(float(t[2]))
+            elif op == 'empty': s.empty()
+            else:
+                if s.thermo is THERMOS[2]: return          # the reaction's chemicals are not in this package
+                if is_multi(s) and tuple(s.phases) != ('g', 'l'): return
+                rxn = RXNS[('m' if is_multi(s) else '1') + ('wt' if t[2] == 'wt' else 'mol')]
+                rxn(s)
+                if np.shape(s.imol.data)[-1] != len(s.chemicals.IDs):
+                    emit(sync_line(sid, s), shape_ans(s))
+                    fail('reset_chemicals:container-not-rebound',
+                         f'stream {sid}: after a reaction defined on another property package imol.data has '
+                         f'{np.shape(s.imol.data)[-1]} columns for {len(s.chemicals.IDs)} chemicals '
+                         f'(MaterialIndexer.reset_chemicals(chemicals, container) never rebinds data / _data_cache)')
+                    raise Stop()
+            mark_change(sid, op)
+            emit(sync_line(sid, s), shape_ans(s))
+        elif op == 'mix':
+            sid, a, b = S(t[1]), S(t[2]), S(t[3]); s = w.streams[sid]
+            ins = [w.streams[a], w.streams[b]]
+            if a == b or sid in (a, b): return
+            if any(i.isempty() for i in ins): return               # other code paths (copy_flow / empty)
+            if any(i.chemicals is not s.chemicals for i in ins): return
+            if is_multi(s):
+                others = ''.join(sorted({ph for i in ins for ph in phases_of(i)}))
+                if any(ph not in s._imol._phase_indexer for ph in others):
+                    return   # MaterialIndexer.mix_from raises KeyError here (stale local phase tuple after _expand_phases)
+                s.mix_from(ins, energy_balance=False)
+                mark_change(sid, 'mix')
+                emit(f'mixinto {sid} {others} {frac(s.P)} {mat(mol_rows(s))}', shape_ans(s))
+            else:
+                s.mix_from(ins, energy_balance=False)
+                mark_change(sid, 'mix')
+                emit(sync_line(sid, s), shape_ans(s))
         elif op == 'rdmol':
             sid = S(t[1]); s = w.streams[sid]
             emit(f'rdmol {sid}', f'm - {mat(mol_rows(s), fbits)}')
@@ -554,7 +605,7 @@ def run_impl(case: Case) -> ImplResult:
         model_in, outs, failures, tags, nontrivial = run_ops(case.ops)
     except Stop:
         raise
-    tags = tags + sorted({'ans:' + o.split(' ')[0] + ('-err' if o.startswith('err') else '') for o in outs})
+    tags = tags + sorted({'ans:' + (o if o.startswith(('err', 'raised')) else o.split(' ')[0]) for o in outs})
     return ImplResult(model_in=model_in, outs=outs, failures=failures, tags=tags,
                       nontrivial=(tuple(case.ops) if nontrivial else None))
 
@@ -640,15 +691,19 @@ def gen_write(rng, o):
 def gen_change(rng, o, n):
     r = rng.random()
     other = rng.randrange(n)
-    if r < 0.14: return f'setT {o} {rng.choice(TS)}'
-    if r < 0.20: return f'setP {o} {rng.choice(PS)}'
-    if r < 0.36: return f'setphase {o} {rng.choice("lgls")}'
-    if r < 0.48: return f'setphases {o} {rng.choice(MULTIPHASES + ["l", "g", "gl"])}'
-    if r < 0.68: return f'link {o} {other} {rng.randrange(2)} {rng.randrange(2)} {rng.randrange(2)}' \
+    if r < 0.11: return f'setT {o} {rng.choice(TS)}'
+    if r < 0.16: return f'setP {o} {rng.choice(PS)}'
+    if r < 0.30: return f'setphase {o} {rng.choice("lgls")}'
+    if r < 0.40: return f'setphases {o} {rng.choice(MULTIPHASES + ["l", "g", "gl"])}'
+    if r < 0.57: return f'link {o} {other} {rng.randrange(2)} {rng.randrange(2)} {rng.randrange(2)}' \
         if rng.random() < 0.5 else f'link {o} {other} 1 1 1'
-    if r < 0.80: return f'unlink {o}'
-    if r < 0.93: return f'copylike {o} {other}'
-    return f'thermo {o} {rng.choice([0, 1, 1, 2])}'
+    if r < 0.67: return f'unlink {o}'
+    if r < 0.78: return f'copylike {o} {other}'
+    if r < 0.84: return f'thermo {o} {rng.choice([0, 1, 1, 2])}'
+    if r < 0.91: return f'mix {o} {other} {rng.randrange(n)}'
+    if r < 0.96: return f'react {o} {rng.choice(["mol", "wt"])}'
+    if r < 0.98: return f'scale {o} {rng.choice([2, 0.5, 3])}'
+    return f'empty {o}'
 
 
 def gen_case(rng, length):
@@ -737,6 +792,11 @@ def corpus():
         # fixes_proposed/C11-3: _expand_phases keeps the cached views of the old rows
         Case(['newm 0 gl 298.15 101325.0 0,2,0,0|1,0,0,0', 'newm 0 Lgl 298.15 101325.0 0,0,0,3|0,0,0,0|1,0,0,0', 'obs 0',
               'copylike 0 1', 'obs 0'], {'witness': 'C11-3'}),
+        # fixes_proposed/C11-4: a reaction of another package on a multi-phase stream
+        Case(['newm 0 gl 298.15 101325.0 0,2,0,0|1,2,0,0', 'obs 0', 'react 0 mol', 'obs 0', 'react 0 wt', 'obs 0'],
+             {'witness': 'C11-4'}),
+        Case(['new1 0 l 298.15 101325.0 1,2,0,0', 'obs 0', 'react 0 mol', 'obs 0', 'react 0 wt', 'obs 0', 'scale 0 2', 'obs 0',
+              'new1 0 g 350.0 101325.0 1,2,0,0', 'new1 0 g 320.0 50000.0 0,2,1,0', 'mix 0 1 2', 'obs 0', 'empty 0', 'obs 0']),
         Case(['new1 0 l 298.15 101325.0 1,2,0,0.5', 'getflow 0 kg 0 0', 'settotal 0 K 2', 'setflow 0 kJ/hr 0 0 1', 'obs 0']),
         Case(['new1 0 l 298.15 101325.0 1,2,0,0.5', 'setflow 0 lb/hr 0 1 20', 'getflow 0 lb/hr 0 1', 'getflow 0 g/min 0 1',
               'getflow 0 mol/s 0 1', 'settotal 0 gal/min 3', 'gettotal 0 gal/min', 'gettotal 0 L/min', 'obs 0']),
